@@ -326,6 +326,60 @@ func (w *c01World) fresh(variant int) *GroupQuotaManager {
 	return g
 }
 
+// restart: a fresh manager rebuilt ONLY through the informer paths from the surviving objects. Pods arrive in a
+// variant-dependent order, some of them twice (duplicate add) and some followed by an update carrying the same
+// allocation; a pod is assigned afterwards iff its object carries a node name (OnPodAdd fail-over branch).
+func (w *c01World) restart(variant int) *GroupQuotaManager {
+	g := c01NewManager()
+	names := make([]string, 0, len(w.quotas))
+	for n := range w.quotas {
+		names = append(names, n)
+	}
+	sort.Strings(names)
+	if variant%2 == 0 {
+		for _, n := range names {
+			g.UpdateQuotaInfo(w.quotas[n])
+		}
+		g.ResetQuota()
+	} else {
+		done := map[string]bool{extension.RootQuotaName: true}
+		for len(done) <= len(names) {
+			progressed := false
+			for _, n := range names {
+				if !done[n] && done[w.quotas[n].Labels[extension.LabelQuotaParent]] {
+					g.UpdateQuota(w.quotas[n])
+					done[n] = true
+					progressed = true
+				}
+			}
+			if !progressed {
+				break
+			}
+		}
+	}
+	ids := make([]string, 0, len(w.pods))
+	for id := range w.pods {
+		ids = append(ids, id)
+	}
+	sort.Strings(ids)
+	rng := rand.New(rand.NewSource(int64(variant)*7919 + int64(len(ids))))
+	rng.Shuffle(len(ids), func(i, j int) { ids[i], ids[j] = ids[j], ids[i] })
+	for _, id := range ids {
+		pr := w.pods[id]
+		p := pr.obj.DeepCopy()
+		p.Labels[extension.LabelQuotaName] = pr.quota
+		g.OnPodAdd(pr.quota, p)
+		switch rng.Intn(3) {
+		case 0:
+			g.OnPodAdd(pr.quota, p.DeepCopy()) // duplicate add
+		case 1:
+			g.OnPodUpdate(pr.quota, pr.quota, p.DeepCopy(), p) // update carrying the same allocation
+		}
+		pr.obj = p
+	}
+	return g
+}
+
 func c01V(m map[string]int64) map[string]int64 {
 	out := map[string]int64{}
 	for _, d := range c01Dims {
@@ -357,7 +411,7 @@ func c01Event(o c01Op) vu.Ev {
 		ev["pod"], ev["in"] = o.Pod, o.In
 	case "node":
 		ev["delta"] = c01V(o.Delta)
-	case "rebuild":
+	case "rebuild", "restart":
 		ev["variant"] = o.Variant
 	case "par":
 		subs := []vu.Ev{}
@@ -384,6 +438,11 @@ func c01RunOpt(rec *vu.Recorder, script []c01Op, noObs bool) {
 		}
 		ev := c01Event(o)
 		switch o.Op {
+		case "restart":
+			// C19: the live manager is dropped; a fresh one is fed only the persisted objects
+			w.gqm = w.restart(o.Variant)
+			ev["variant"] = o.Variant
+			ev["obs"] = c01Obs(w.gqm)
 		case "refresh":
 			c02Refresh(w.gqm, o.Name, ev)
 		case "rebuild":
@@ -624,4 +683,73 @@ func TestVerifC01(t *testing.T) {
 		c01Run(rec, c01Random(rng, length, i%2 == 1, i%3 == 2))
 	}
 	t.Logf("C01: %d segments, %d events", rec.Segments(), rec.Events())
+}
+
+// ---- C19, quota part: allocation histories cut by restarts ----
+func c19QuotaScript(rng *rand.Rand, n int) []c01Op {
+	g := &c01Gen{rng: rng, quotas: map[string]c01Op{}, pods: map[string]string{}, nq: 5, np: 8, big: rng.Intn(2) == 0}
+	bound := map[string]bool{} // once an object carries a node name it keeps it (legal informer histories)
+	var out []c01Op
+	for len(out) < n {
+		k := rng.Intn(20)
+		switch {
+		case len(g.quotas) == 0 || k < 4:
+			if o, ok := g.quotaOp(); ok {
+				if o.Op == "quotaDelete" {
+					for p, q := range bound {
+						_ = q
+						if _, alive := g.pods[p]; !alive {
+							delete(bound, p)
+						}
+					}
+				}
+				out = append(out, o)
+			}
+		case k < 7:
+			out = append(out, c01Op{Op: "restart", Variant: rng.Intn(8)})
+		default:
+			id := "p" + string(rune('0'+rng.Intn(g.np)))
+			if o, ok := g.podOp(id); ok {
+				switch o.Op {
+				case "podAdd", "podUpdate":
+					if bound[id] {
+						o.Bound = true
+					}
+					bound[id] = o.Bound
+				case "podDelete":
+					delete(bound, id)
+				}
+				out = append(out, o)
+			}
+		}
+	}
+	out = append(out, c01Op{Op: "restart", Variant: rng.Intn(8)})
+	return out
+}
+
+func TestVerifC19Quota(t *testing.T) {
+	if !vu.Enabled() {
+		t.Skip("verification harness: VERIF_OUT not set")
+	}
+	rec := vu.NewRecorder("")
+	defer rec.Close()
+	if vu.ReplayPath() != "" {
+		for _, raw := range vu.ReadScripts(vu.ReplayPath()) {
+			var script []c01Op
+			if err := json.Unmarshal(raw, &script); err != nil {
+				t.Fatal(err)
+			}
+			c01Run(rec, script)
+		}
+		return
+	}
+	n, length := 150, 40
+	if vu.Thorough() {
+		n, length = 2000, 70
+	}
+	rng := vu.Rand(19)
+	for i := 0; i < n; i++ {
+		c01Run(rec, c19QuotaScript(rng, length))
+	}
+	t.Logf("C19 quota: %d segments, %d events", rec.Segments(), rec.Events())
 }
